@@ -488,6 +488,20 @@ func runDecFamily(c *runCtx) error {
 					prevOut = out
 				}
 			}
+			// the moving-average ETA: remaining = items left x the average duration per item rounded to a whole nanosecond
+			// (not cut: an average of 2.6 ns over 4e9 items is 12 s, not 8 s)
+			{
+				fracs := []float64{0.5, 0.6, 0.75, 0.999, 0.25, 0.0, 0.499}
+				v := float64(1+r.intn(6)) + fracs[r.intn(len(fracs))]
+				left := int64(1+r.intn(9)) * 1000000000
+				cur := int64(r.intn(1000))
+				d := decor.MovingAverageETA(decor.ET_STYLE_GO, &fakeAvg{v: v}, nil)
+				got, _ := d.Decor(decor.Statistics{Total: cur + left, Current: cur})
+				want := time.Duration(left * int64(math.Round(v))).Truncate(time.Second).String()
+				if got != want {
+					bad = append(bad, fmt.Sprintf("V MovingAverageETA: %d items left at %v ns per item prints %q, want %q", left, v, got, want))
+				}
+			}
 			cases.WriteString(fmt.Sprintf("M %d %d %q %v\n", k, len(frames), nm, cond))
 			report("misc", bad, false)
 		}
